@@ -158,7 +158,9 @@ def reader_cases(n):
            ("con2", m, [(f"b{i}", alpha2[i % len(alpha2)]) for i in range(0, len(alpha), 2)] + [("only2", alpha2[-1])])]
     inter = [("con2", m, [(f"b{i}", alpha2[(i * 7) % len(alpha2)]) for i in range(len(alpha))]),
              ("con1", n, [(f"b{i}", r) for i, r in enumerate(rot)])]
-    return {"one": one, "two-shared-ids": two, "two-reversed-header": inter}
+    # a ballot identifier repeated inside one contest (a re-scanned / corrected record): the later row stands
+    rep = [("con1", n, [(f"b{i}", r) for i, r in enumerate(alpha)] + [(f"b{i}", alpha[(i * 3 + 1) % len(alpha)]) for i in range(0, len(alpha), 3)])]
+    return {"one": one, "two-shared-ids": two, "two-reversed-header": inter, "id-repeated-in-contest": rep}
 
 
 def judge_readers(n, layout):
@@ -172,7 +174,7 @@ def judge_readers(n, layout):
     want = {}
     for cid, m, rows in spec:
         for bid, r in rows:
-            want.setdefault(bid, {})[cid] = [s2r.NAMES[c] for c in r]
+            want.setdefault(bid, {})[cid] = [s2r.NAMES[c] for c in r]  # a later row for the same ballot and contest replaces the earlier
     ncmp = 0
     ids = [c.id for c in cvs]
     if len(ids) != len(set(ids)) or set(ids) != set(want) or set(rcvrs) != set(want):
